@@ -473,7 +473,8 @@ theorem abort_records_wait (fl : Flags) (ha : fl.abortReleases = true) (s : St) 
     (hpc : (s.jobs j).pc = .lockEnter) (hh : (s.jobs j).held = [])
     (hfail : (s.acquireAll j (s.jobs j).deps.length 0).2 = some e)
     (hnodup : ∀ i t c c', i ≠ e → (depAt (s.jobs j) e).origin = .tok t c → (depAt (s.jobs j) i).origin ≠ .tok t c') :
-    e < (s.jobs j).deps.length ∧ (depAt ((s.resume fl j).jobs j) e).cur = .wait := by
+    e < (s.jobs j).deps.length ∧ (depAt ((s.resume fl j).jobs j) e).cur = .wait ∧
+    ∃ t c, (depAt (s.jobs j) e).origin = .tok t c ∧ s.avail t < c := by
   have hlt := acquireAll_lt s j (s.jobs j).deps.length 0 e hfail
   have hfails := ((acquireAll_ind (fun _ => True) j (0 + (s.jobs j).deps.length) (fun _ _ _ _ _ => trivial)
     (s.jobs j).deps.length 0 s rfl trivial).2 e hfail).2
@@ -532,6 +533,7 @@ theorem abort_records_wait (fl : Flags) (ha : fl.abortReleases = true) (s : St) 
       ((s1.releaseAll j (s1.jobs j).held).status (depAt ((s1.releaseAll j (s1.jobs j).held).jobs j) e).origin)
       (by rw [hrel_job]; exact hlen)
     have ej : ((s1.releaseAll j (s1.jobs j).held).check fl j e).jobs j = _ := check_job fl _ j e
+    refine ⟨?_, t, c, ho, by rw [hav1] at hfails; exact hfails⟩
     show (depAt { (((s1.releaseAll j (s1.jobs j).held).check fl j e).jobs j) with pc := .lockExitAbort } e).cur = .wait
     have : (depAt { (((s1.releaseAll j (s1.jobs j).held).check fl j e).jobs j) with pc := PC.lockExitAbort } e)
         = depAt (((s1.releaseAll j (s1.jobs j).held).check fl j e).jobs j) e := rfl
